@@ -19,6 +19,7 @@ worker() {
       out=$(PHYCLONE_REPO=$WT PYTHONPATH=$WT VERIF_EVIDENCE_DIR=$SCR/ev$i VERIF_REPLAY_DIR=$SCR/rp$i bin/check $c 2>&1); code=$?
       first=$(echo "$out" | grep -A1 "^VIOLATION" | grep "obligation:" | head -1 | sed 's/^ *obligation: //' | cut -c1-160)
       [ -z "$first" ] && first=$(echo "$out" | grep -E "ENGINE-ERROR|UNDECIDED" | head -1 | cut -c1-160)
+      [ -n "$SAVE_OUT" ] && { mkdir -p $SAVE_OUT; echo "$out" | grep -E "^VIOLATION|obligation:|ENGINE-ERROR|UNDECIDED|tier=" | cut -c1-400 > $SAVE_OUT/$id.$c.txt; }
       echo -e "$id\t$c\t$code\t$first" >> $SCR/rows$i.tsv
       echo "$id vs $c: exit=$code"
     done
